@@ -31,8 +31,12 @@ def sym_image(base=Image, summarize=("make_safe_name", "make_export_name", "_add
 
 def sym_str(name, cap, alphabet=None, minlen=0, maxcp=128):
     """a symbolic string of capacity `cap`; returns (SymStr, constraints)"""
-    s = SymStr([z3.BitVec(f"{name}_{i}", BW) for i in range(cap)], z3.Int(f"{name}_n"))
-    cons = [s.n >= minlen, s.n <= cap]
+    if minlen == cap:
+        s = SymStr([z3.BitVec(f"{name}_{i}", BW) for i in range(cap)], cap)         # fixed length: keeps every position concrete
+        cons = []
+    else:
+        s = SymStr([z3.BitVec(f"{name}_{i}", BW) for i in range(cap)], z3.Int(f"{name}_n"))
+        cons = [s.n >= minlen, s.n <= cap]
     if alphabet is not None:
         cons += [in_set(c, alphabet) for c in s.c]
     else:
